@@ -303,6 +303,190 @@ pub fn run_mt(c: &super::c04::MtCase) -> Outcome {
 }
 
 // ---------------------------------------------------------------------------------------------
+// One task that awaits several tickets of the same job at once (a hand-written join: every ticket that is
+// still pending is polled, in a fixed generated order, with the task's one waker)
+
+#[derive(Clone, Debug, serde::Serialize, serde::Deserialize)]
+pub struct JoinCase {
+	/// tickets in send order: 0 run(closure) (completes when the gate opens), 1 to_wait (only the end of the
+	/// process or of the job resolves it), 2 stop_with_signal with a 20 s grace period (outstanding during the
+	/// grace period; only with `end` = delete_now), 3 signal (completes)
+	pub kinds: Vec<u8>,
+	/// poll order: ranks, sorted stably
+	pub order: Vec<u8>,
+	/// how the job ends: false = the last handle is dropped, true = delete_now
+	pub delete_now: bool,
+	/// further join tasks doing the same (each with its own waker and its own clones)
+	pub tasks: u8,
+}
+
+pub fn run_join(c: &JoinCase) -> Outcome {
+	use std::future::Future;
+	use std::sync::{atomic::{AtomicBool, AtomicUsize, Ordering}, Arc};
+	use std::task::{Context, Poll};
+	use std::time::{Duration, Instant};
+	use watchexec_signals::Signal;
+	use watchexec_supervisor::{
+		command::{Command, Program, SpawnOptions},
+		job::start_job,
+	};
+	let mut o = Outcome::pass();
+	let mut kinds: Vec<u8> = c.kinds.iter().map(|k| if *k % 4 == 2 && !c.delete_now { 1 } else { *k % 4 }).collect();
+	// normal-priority controls behind a graceful stop wait for its grace period: the stops are sent last
+	kinds.sort_by_key(|k| *k == 2);
+	let n = kinds.len();
+	let outstanding = kinds.iter().filter(|k| matches!(**k, 1 | 2)).count();
+	let completing = n - outstanding;
+	o.nontrivial = outstanding >= 1 && completing >= 1;
+	let mut order: Vec<usize> = (0..n).collect();
+	order.sort_by_key(|i| c.order.get(*i).copied().unwrap_or(0));
+	// the shape that matters: some outstanding ticket is polled before some completing one
+	let first_completing = order.iter().position(|i| !matches!(kinds[*i], 1 | 2));
+	let first_outstanding = order.iter().position(|i| matches!(kinds[*i], 1 | 2));
+	if let (Some(a), Some(b)) = (first_outstanding, first_completing) {
+		if a < b {
+			o.label("outstanding-polled-before-completing");
+		}
+	}
+	o.label(if c.delete_now { "ends-by-delete_now" } else { "ends-by-last-handle-drop" });
+	let logs = super::c08::Logs::new("vh-c07j-");
+	let rt = tokio::runtime::Builder::new_multi_thread().worker_threads(2).enable_all().build().unwrap();
+	let cmd = Arc::new(Command {
+		program: Program::Exec {
+			prog: super::c18::helper_path(),
+			args: vec!["run".into(), "--log".into(), logs.log().to_string_lossy().into_owned(), "--lock".into(), logs.dir.path().join("lock").to_string_lossy().into_owned(), "--on-signal".into(), "ignore".into()],
+		},
+		options: SpawnOptions::default(),
+	});
+	let (job, task) = rt.block_on(async { start_job(cmd) });
+	let started = rt.block_on(async { tokio::time::timeout(Duration::from_secs(5), job.start()).await.is_ok() });
+	if !started {
+		o.fail("env:helper-not-started", format!("start() did not complete within 5 s\ncase {c:?}"));
+		return o;
+	}
+	// everything below is queued behind a gate, so that the first pass of every join task sees all tickets pending
+	let (gate_s, gate_r) = tokio::sync::oneshot::channel::<()>();
+	job.run_async(move |_| Box::new(async move { let _ = gate_r.await; }));
+	let tickets: Vec<_> = kinds
+		.iter()
+		.map(|k| match k {
+			0 => job.run(|_| {}),
+			1 => job.to_wait(),
+			2 => job.stop_with_signal(Signal::Terminate, Duration::from_secs(20)),
+			_ => job.signal(Signal::Hangup),
+		})
+		.collect();
+	let ntasks = usize::from(c.tasks.clamp(1, 3));
+	let first_pass = Arc::new(AtomicUsize::new(0));
+	let second_pass = Arc::new(AtomicUsize::new(0));
+	let ended = Arc::new(AtomicBool::new(false));
+	let mut th = Vec::new();
+	for _ in 0..ntasks {
+		let mut ts: Vec<_> = tickets.iter().cloned().collect();
+		let (order, first_pass, second_pass, ended) = (order.clone(), first_pass.clone(), second_pass.clone(), ended.clone());
+		th.push(std::thread::spawn(move || -> (usize, usize) {
+			let (inner, waker) = slowwaker::new(0);
+			let mut cx = Context::from_waker(&waker);
+			let mut ready = vec![false; ts.len()];
+			let mut passes = 0usize;
+			let mut t_end: Option<Instant> = None;
+			loop {
+				for &i in &order {
+					if !ready[i] {
+						if let Poll::Ready(()) = std::pin::Pin::new(&mut ts[i]).poll(&mut cx) {
+							ready[i] = true;
+						}
+					}
+				}
+				passes += 1;
+				if passes == 1 {
+					first_pass.fetch_add(1, Ordering::SeqCst);
+				}
+				if ready.iter().filter(|r| **r).count() >= completing {
+					second_pass.fetch_add(1, Ordering::SeqCst);
+				}
+				if ready.iter().all(|r| *r) {
+					return (0, 0);
+				}
+				// like a task: nothing but a wake-up makes it poll again
+				loop {
+					let guard = inner.woken.lock().unwrap();
+					let (mut guard, _) = inner.cv.wait_timeout_while(guard, Duration::from_millis(20), |w| !*w).unwrap();
+					if *guard {
+						*guard = false;
+						break;
+					}
+					drop(guard);
+					if ended.load(Ordering::SeqCst) {
+						let t = *t_end.get_or_insert_with(Instant::now);
+						if t.elapsed() > Duration::from_millis(1500) {
+							// not woken for 1.5 s after the job ended: are the tickets in fact resolved?
+							let (_, w2) = slowwaker::new(0);
+							let mut cx2 = Context::from_waker(&w2);
+							let mut unwoken = 0;
+							let mut unresolved = 0;
+							for i in 0..ts.len() {
+								if !ready[i] {
+									if let Poll::Ready(()) = std::pin::Pin::new(&mut ts[i]).poll(&mut cx2) {
+										unwoken += 1;
+									} else {
+										unresolved += 1;
+									}
+								}
+							}
+							return (unwoken, unresolved);
+						}
+					}
+				}
+			}
+		}));
+	}
+	let wait_for = |ctr: &AtomicUsize| {
+		let t = Instant::now();
+		while ctr.load(Ordering::SeqCst) < ntasks && t.elapsed() < Duration::from_secs(5) {
+			std::thread::sleep(Duration::from_micros(200));
+		}
+		ctr.load(Ordering::SeqCst) >= ntasks
+	};
+	let p1 = wait_for(&first_pass);
+	let _ = gate_s.send(());
+	let p2 = wait_for(&second_pass);
+	std::thread::sleep(Duration::from_millis(30));
+	// the job ends
+	drop(tickets);
+	if c.delete_now {
+		drop(job.delete_now());
+		drop(job);
+	} else {
+		drop(job);
+	}
+	ended.store(true, Ordering::SeqCst);
+	let mut unwoken = 0;
+	let mut unresolved = 0;
+	for t in th {
+		if let Ok((a, b)) = t.join() {
+			unwoken += a;
+			unresolved += b;
+		}
+	}
+	let task_done = rt.block_on(async { tokio::time::timeout(Duration::from_secs(3), task).await.is_ok() });
+	rt.shutdown_timeout(Duration::from_millis(200));
+	super::c08::kill_all(&logs.pids());
+	if !p1 || !p2 {
+		o.fail("harness:join-phases", format!("the join tasks did not reach their first / second pass (first {p1}, second {p2}): the completing controls did not complete within 5 s of the gate opening\ncase {c:?}"));
+		return o;
+	}
+	if unwoken > 0 {
+		o.fail("joined-tickets:never-woken", format!("{unwoken} ticket(s) had resolved when the job ended but the task awaiting them together with other tickets of the job was not woken for 1.5 s\ncase {c:?} (kinds after normalisation {kinds:?}, poll order {order:?})"));
+	} else if unresolved > 0 {
+		o.fail("joined-tickets:unresolved", format!("{unresolved} ticket(s) still unresolved 1.5 s after the job ended\ncase {c:?} (kinds {kinds:?}, poll order {order:?}, job task ended: {task_done})"));
+	} else if !task_done {
+		o.fail("joined-tickets:task-did-not-end", format!("the job task was still running 3 s after the job was ended\ncase {c:?}"));
+	}
+	o
+}
+
+// ---------------------------------------------------------------------------------------------
 // Waiters that register at the very moment the control completes (the harness owns part of the schedule:
 // each waiter's waker takes a generated time to clone, which is done while the ticket registers it)
 
@@ -669,6 +853,25 @@ pub fn check(e: &Engine) {
 		},
 		&run_regrace,
 	);
+	e.explore(
+		"joined-tickets",
+		LegOpts {
+			cases: e.tier.pick(48, 1_000),
+			shards: 8,
+			threads: 8,
+			confirm: 1,
+			max_shrink_iters: 8,
+			rule: "1-3 hand-written join tasks (OS threads with their own waker, polling only when woken) each await clones of 2-5 tickets of one job running a real process that ignores signals: closures and signals (complete when a gate opens after the first pass), to_wait and a graceful stop with a 20 s grace period (outstanding); the pending tickets are polled in a generated fixed order with the task's one waker; then the job ends (last handle dropped, or delete_now): every ticket must have resolved and the task must have been woken within 1.5 s; non-trivial = at least one completing and one outstanding ticket",
+			confirm_any: &[],
+		},
+		&|| {
+			(proptest::collection::vec(0u8..4, 2..6), proptest::collection::vec(0u8..6, 5), any::<bool>(), 1u8..4)
+				.prop_map(|(kinds, order, delete_now, tasks)| JoinCase { kinds, order, delete_now, tasks })
+				.boxed()
+		},
+		&run_join,
+	);
+	e.require_label("joined-tickets", "outstanding-polled-before-completing", 0.2);
 	e.explore(
 		"high-priority-flood",
 		LegOpts {
